@@ -601,6 +601,7 @@ func c17RunSession(t *testing.T, c *c17RealCase, local, served *chain.StubBlockC
 		stop = "not-started"
 	case <-time.After(c17Watchdog):
 		stop = "hang"
+		c17Hangs++
 	}
 	close(quit)
 	<-hubDone
@@ -612,6 +613,8 @@ func c17RunSession(t *testing.T, c *c17RealCase, local, served *chain.StubBlockC
 }
 
 const c17Watchdog = 15 * time.Second
+
+var c17Hangs int // after a few sessions that never ended the remaining cases are skipped
 
 func TestVerifC17Real(t *testing.T) {
 	in, err := os.Open(os.Getenv("VERIF_IN"))
@@ -719,6 +722,12 @@ func TestVerifC17Real(t *testing.T) {
 		var obs c17RealObs
 		var last *message.AddBlockRsp
 		c17Hub = nil
+		if c17Hangs >= 3 {
+			obs.S1 = c17Session{Stop: "skipped", Ancestor: -1}
+			b, _ := json.Marshal(obs)
+			fmt.Fprintln(w, string(b))
+			continue
+		}
 		obs.S1, last = c17RunSessionHub(t, &c, local, served, peers, c.Target, nil)
 		if c.Second {
 			var stale *message.AddBlockRsp
